@@ -578,3 +578,221 @@ Proof.
     apply (unit_text hdr k (i0 :: ir) (pobj ++ pkg) (c1 ++ c2) (n1 ++ n2) Hh Hinit (ps_app true _ _ _ _ _ _ P1 P2)).
     destruct c1 as [|d cs]; [exact T2|exact T1].
 Qed.
+
+(* ------------------------------------------------------------------ the layout layer alone: lists of declarations *)
+Lemma decls_ps top ds : Forall (fun d => c10_scg_decl_ok d /\ decl_top d = top) ds ->
+  exists c n, PS top (List.concat (map sc_render_decl ds)) c n /\ (List.length ds <= fold_right plus O n)%nat /\ Forall NoPkg c.
+Proof.
+  intros H. assert (Hp : Forall (PSd top) (map sc_render_decl ds)).
+  { apply Forall_map. revert H. apply Forall_impl. intros d [Hd <-]. apply sc_render_decl_gram, Hd. }
+  destruct (ps_concat top _ Hp) as (c & n & Hps & Hlen & Hk & _ & _). rewrite map_length in Hlen. exists c, n. auto.
+Qed.
+
+(* classes and enums at the top level of a unit *)
+Theorem sc_top_decls_recognised ds : Forall (fun d => c10_scg_decl_ok d /\ decl_top d = true) ds ->
+  exists n, c10_sc_recognise (List.concat (map sc_render_decl ds)) = Some n /\ (List.length ds <= n)%nat.
+Proof.
+  intros H. destruct (decls_ps true ds H) as (c & n & Hps & Hlen & Hk). exists (fold_right plus O n). split; [|exact Hlen].
+  pose proof (unit_text [] 0 [] _ c n cfrag_nil (Forall_nil _) Hps) as G. cbn [app repeat] in G. apply G.
+  destruct c as [|d cs]; [exact I|]. right; right. exact (Forall_inv Hk).
+Qed.
+
+(* package a.b / package object c { aliases } / package c { classes and enums } *)
+Theorem sc_packaged_decls_recognised init last das dps : init <> [] -> Forall gname init -> gname last ->
+  Forall (fun d => c10_scg_decl_ok d /\ decl_top d = false) das -> Forall (fun d => c10_scg_decl_ok d /\ decl_top d = true) dps ->
+  exists n, c10_sc_recognise (lit "package " ++ join [46] init ++ sc_nl ++ sc_nl ++
+                              lit "package object " ++ last ++ lit " {" ++ sc_nl ++ sc_nl ++ List.concat (map sc_render_decl das) ++ lit "}" ++ sc_nl ++
+                              lit "package " ++ last ++ lit " {" ++ sc_nl ++ sc_nl ++ List.concat (map sc_render_decl dps) ++ lit "}" ++ sc_nl) = Some n /\
+            (List.length das + List.length dps <= n)%nat.
+Proof.
+  intros Hne Hi Hl Ha Hp. destruct (decls_ps false das Ha) as (c1 & n1 & P1 & L1 & _). destruct (decls_ps true dps Hp) as (c2 & n2 & P2 & L2 & _).
+  pose proof (ps_section true last _ _ _ Hl P1) as S1. pose proof (ps_section false last _ _ _ Hl P2) as S2.
+  pose proof (ps_app true _ _ _ _ _ _ S1 S2) as S12.
+  exists (fold_right plus O ([fold_right plus O n1] ++ [fold_right plus O n2])). split; [|cbn [app fold_right]; lia].
+  destruct init as [|i0 ir]; [congruence|].
+  pose proof (unit_text [] 0 (i0 :: ir) _ _ _ cfrag_nil Hi S12) as G. cbn [repeat] in G.
+  match goal with |- c10_sc_recognise ?t = _ => match type of G with _ -> c10_sc_recognise ?u = _ => replace t with u by (norm_app; reflexivity) end end.
+  apply G. left. eexists. reflexivity.
+Qed.
+
+(* ------------------------------------------------------------------ a computable sufficient condition for the verbatim texts *)
+Definition gnameb (n : str) : bool := c10_sc_ident_ok n && negb (c10_sc_kw n).
+Lemma gnameb_ok n : gnameb n = true -> gname n.
+Proof. unfold gnameb. rewrite andb_true_iff, negb_true_iff. intros [H1 H2]. split; assumption. Qed.
+
+(* ------------------------------------------------------------------ non-vacuity *)
+Definition g_id (s : string) : id := {| original := lit s; renamed := lit s; via_serde_rename := false |}.
+Definition g_field (name : string) (ty : rtype) : rfield :=
+  {| fid := g_id name; fty := ty; fcomments := [lit "a doc line with ""quotes"", a ( paren and a // slash pair"]; has_default := false; fdecs := [] |}.
+Definition g_struct : rstruct :=
+  {| sid := g_id "Person"; sgenerics := [lit "T"; lit "U"];
+     sfields := [g_field "name" (RPrim PString);
+                 {| fid := g_id "age"; fty := ROption (RPrim PU32); fcomments := []; has_default := true; fdecs := [] |};
+                 g_field "tags" (RVec (RSimple (lit "T")));
+                 g_field "home" (RSimple (lit "Url"));
+                 g_field "index" (RHashMap (RPrim PString) (RGeneric (lit "Box") [RSimple (lit "U"); RVec (RPrim PBool)]));
+                 {| fid := {| original := lit "first_name"; renamed := lit "first-name"; via_serde_rename := true |}; fty := ROption (ROption (RPrim PString));
+                    fcomments := []; has_default := false; fdecs := [] |};
+                 {| fid := g_id "raw"; fty := RPrim PString; fcomments := [lit "one"; lit "two"]; has_default := false;
+                    fdecs := [(Scala, [DNameValue (lit "type") (lit "Map[String, Vector[Int]]")])] |}];
+     scomments := [lit "first line"; lit "second line"]; sdecs := []; sredacted := false |}.
+Definition g_empty : rstruct :=
+  {| sid := g_id "Nothing"; sgenerics := []; sfields := []; scomments := [lit "no fields"]; sdecs := []; sredacted := false |}.
+Definition g_alias : ralias :=
+  {| aid := g_id "Al"; agenerics := [lit "T"]; atype := ROption (RVec (RSimple (lit "T"))); acomments := [lit "an alias"]; adecs := []; aredacted := false |}.
+Definition g_unit_enum : renum :=
+  EUnit {| eid := g_id "Color"; egenerics := []; ecomments := [];
+           evariants := [VUnit {| vid := g_id "Red"; vcomments := [lit "the red one"] |};
+                         VUnit {| vid := {| original := lit "DarkBlue"; renamed := lit "dark-blue"; via_serde_rename := true |}; vcomments := [] |}];
+           edecs := []; erecursive := false; eredacted := false |}.
+Definition g_enum : renum :=
+  EAlgebraic (lit "type") (lit "content")
+    {| eid := g_id "E"; egenerics := [lit "T"]; ecomments := [lit "an enum"];
+       evariants := [VUnit {| vid := g_id "U"; vcomments := [] |};
+                     VTuple (RHashMap (RPrim PString) (ROption (RSimple (lit "T")))) {| vid := g_id "Tup"; vcomments := [lit "doc"] |};
+                     VAnon [{| fid := {| original := lit "inner"; renamed := lit "in-ner"; via_serde_rename := true |}; fty := RPrim PU32; fcomments := []; has_default := false; fdecs := [] |};
+                            g_field "when" (RSimple (lit "T"))] {| vid := g_id "S"; vcomments := [] |}];
+       edecs := []; erecursive := false; eredacted := false |}.
+Definition g_prog : parsed :=
+  {| p_structs := [g_struct; g_empty]; p_enums := [g_unit_enum; g_enum]; p_aliases := [g_alias]; p_consts := [];
+     p_type_names := []; p_errors := []; p_imports := [] |}.
+Definition g_cfg : sc_config :=
+  {| sc_package := lit "com.agilebits.onepassword"; sc_module_name := []; sc_type_mappings := [(lit "Url", lit "String")];
+     sc_no_version_header := false; sc_version := lit "1.13.2" |}.
+
+Definition g_text : str := match sc_generate uc_exec g_cfg g_prog with Ok t => t | _ => [] end.
+
+(* mutilations: the text without its last three characters; without its first opening parenthesis; with its first [=] turned into
+   [:]; without its first comma *)
+Fixpoint g_drop_first (c : char) (s : str) : str :=
+  match s with [] => [] | x :: r => if x =? c then r else x :: g_drop_first c r end.
+Fixpoint g_subst_first (c d : char) (s : str) : str :=
+  match s with [] => [] | x :: r => if x =? c then d :: r else x :: g_subst_first c d r end.
+
+Lemma g_override_tytext : TyText (lit "Map[String, Vector[Int]]").
+Proof.
+  change (lit "Map[String, Vector[Int]]")
+    with (lit "Map[" ++ lit "String" ++ lit ", " ++ (lit "Vector" ++ lit "[" ++ join (lit ", ") [lit "Int"] ++ lit "]") ++ lit "]").
+  apply tytext_map; [apply tytext_ident, gname_lit; reflexivity|].
+  apply tytext_app; [apply gname_lit; reflexivity|discriminate|]. constructor; [|constructor]. apply tytext_ident, gname_lit; reflexivity.
+Qed.
+
+Lemma g_cfg_ok : c10_scg_cfg_ok g_cfg.
+Proof.
+  split; [repeat constructor; apply tytext_ident, gname_lit; reflexivity|].
+  exists [lit "com"; lit "agilebits"; lit "onepassword"]. split; [discriminate|]. split; [|reflexivity].
+  repeat constructor; reflexivity.
+Qed.
+
+Lemma g_dom_ok : c10_scg_dom g_prog.
+Proof.
+  assert (Hf : forall f, gnameb (replace_char ch_dash ch_us (renamed (fid f))) = true -> c10_sc_rtype_kw (fty f) = false ->
+                         type_override f Scala = None -> (has_default f = true -> is_optional (fty f) = true) -> c10_scg_field_ok f).
+  { intros f H1 H2 H3 H4. split; [apply gnameb_ok, H1|]. split; [exact H2|]. split; [|exact H4]. intros o E. rewrite H3 in E. discriminate. }
+  assert (Hraw : forall f, gnameb (replace_char ch_dash ch_us (renamed (fid f))) = true -> c10_sc_rtype_kw (fty f) = false ->
+                           type_override f Scala = Some (lit "Map[String, Vector[Int]]") -> has_default f = false -> c10_scg_field_ok f).
+  { intros f H1 H2 H3 H4. split; [apply gnameb_ok, H1|]. split; [exact H2|]. split; [|rewrite H4; discriminate].
+    intros o E. rewrite H3 in E. injection E as <-. exact g_override_tytext. }
+  unfold c10_scg_dom. cbn [items_of g_prog p_aliases p_structs p_enums p_consts map app].
+  repeat (apply Forall_cons); try apply Forall_nil; cbn [c10_scg_item_ok enum_shared].
+  - split; [reflexivity|]. split; [repeat constructor|reflexivity].
+  - split; [reflexivity|]. split; [repeat constructor|].
+    repeat (apply Forall_cons); try apply Forall_nil;
+      try (apply Hf; [vm_compute; reflexivity|vm_compute; reflexivity|vm_compute; reflexivity|vm_compute; try discriminate; reflexivity]).
+    apply Hraw; vm_compute; reflexivity.
+  - split; [reflexivity|]. split; [constructor|constructor].
+  - split; [reflexivity|]. split; [reflexivity|]. split; [constructor|]. split; [|exact I].
+    repeat (apply Forall_cons); try apply Forall_nil; split; try reflexivity; exact I.
+  - split; [reflexivity|]. split; [reflexivity|]. split; [repeat constructor|]. split; [|apply gname_lit; reflexivity].
+    repeat (apply Forall_cons); try apply Forall_nil; split; try reflexivity; try exact I.
+    repeat (apply Forall_cons); try apply Forall_nil;
+      (apply Hf; [vm_compute; reflexivity|vm_compute; reflexivity|vm_compute; reflexivity|vm_compute; try discriminate; reflexivity]).
+Qed.
+
+Example C10_sc_grammar_nonvacuous :
+  Proofs.C10_SC.c10_sc_cfg_ok g_cfg = true /\ c10_scg_cfg_ok g_cfg /\
+  dom_C10 CSC g_prog = true /\ c10_scg_dom g_prog /\ c10_scg_toplevel_ok g_cfg g_prog /\
+  known_C10 CSC (sc_package g_cfg) g_prog = [] /\ known_C10_sc_grammar (sc_package g_cfg) g_prog = [] /\
+  sc_generate uc_exec g_cfg g_prog = Ok g_text /\
+  c10_sc_recognise g_text = Some 12%nat /\
+  contains_sub (lit "package com.agilebits") g_text = true /\
+  contains_sub (lit "package object onepassword {") g_text = true /\
+  contains_sub (lit "type ULong = Int") g_text = true /\
+  contains_sub (lit "type Al[T] = Option[Vector[T]]") g_text = true /\
+  contains_sub (lit "case class Person[T, U] (") g_text = true /\
+  contains_sub (lit "age: Option[UInt] = None,") g_text = true /\
+  contains_sub (lit "index: Map[String, Box[U, Vector[Boolean]]],") g_text = true /\
+  contains_sub (lit "first_name: Option[Option[String]] = None,") g_text = true /\
+  contains_sub (lit "raw: Map[String, Vector[Int]]") g_text = true /\
+  contains_sub (lit "class Nothing extends Serializable") g_text = true /\
+  contains_sub (lit "case object DarkBlue extends Color {") g_text = true /\
+  contains_sub (lit "val serialName: String = ""dark-blue""") g_text = true /\
+  contains_sub (lit "case class Tup[T](content: Map[String, Option[T]]) extends E[T] {") g_text = true /\
+  contains_sub (lit "case class S[T](content: ESInner[T]) extends E[T] {") g_text = true /\
+  c10_sc_recognise (firstn (List.length g_text - 3) g_text) = None /\
+  c10_sc_recognise (g_drop_first 40 g_text) = None /\
+  c10_sc_recognise (g_subst_first 61 58 g_text) = None /\
+  c10_sc_recognise (g_drop_first 44 g_text) = None /\
+  c10_sc_recognise (g_drop_first 91 g_text) = None.
+Proof.
+  split; [vm_compute; reflexivity|]. split; [exact g_cfg_ok|]. split; [vm_compute; reflexivity|]. split; [exact g_dom_ok|].
+  split; [left; vm_compute; reflexivity|]. repeat split; vm_compute; reflexivity.
+Qed.
+
+(* the witness, in the form stated in Props/C10.v *)
+Lemma grammar_witness :
+  Proofs.C10_SC.c10_sc_cfg_ok g_cfg = true /\ c10_scg_cfg_ok g_cfg /\ dom_C10 CSC g_prog = true /\ c10_scg_dom g_prog /\ c10_scg_toplevel_ok g_cfg g_prog /\
+  known_C10 CSC (sc_package g_cfg) g_prog = [] /\ known_C10_sc_grammar (sc_package g_cfg) g_prog = [] /\
+  sc_generate uc_exec g_cfg g_prog = Ok g_text /\ c10_sc_recognise g_text = Some 12%nat /\
+  contains_sub (lit "package object onepassword {") g_text = true /\
+  contains_sub (lit "case class Person[T, U] (") g_text = true /\
+  contains_sub (lit "first_name: Option[Option[String]] = None,") g_text = true /\
+  contains_sub (lit "case class S[T](content: ESInner[T]) extends E[T] {") g_text = true /\
+  c10_sc_recognise (firstn (List.length g_text - 3) g_text) = None /\
+  c10_sc_recognise (g_drop_first 40 g_text) = None /\
+  c10_sc_recognise (g_subst_first 61 58 g_text) = None /\
+  c10_sc_recognise (g_drop_first 44 g_text) = None /\
+  c10_sc_recognise (g_drop_first 91 g_text) = None.
+Proof.
+  destruct C10_sc_grammar_nonvacuous as (A1 & A2 & A3 & A4 & A5 & A6 & A7 & A8 & A9 & _ & B11 & _ & _ & B14 & _ & _ & B17 & _ & _ & _ & _ & _ & B23 & C1 & C2 & C3 & C4 & C5).
+  repeat (split; [assumption|]). assumption.
+Qed.
+
+(* ------------------------------------------------------------------ the finding classes of the grammar half are real *)
+Definition k_prog : parsed :=
+  {| p_structs := [{| sid := g_id "S"; sgenerics := []; sfields := [{| fid := g_id "type"; fty := RPrim PString; fcomments := []; has_default := false; fdecs := [] |};
+                                                                     {| fid := g_id "val"; fty := RPrim PI32; fcomments := []; has_default := false; fdecs := [] |}];
+                      scomments := []; sdecs := []; sredacted := false |}];
+     p_enums := []; p_aliases := []; p_consts := []; p_type_names := []; p_errors := []; p_imports := [] |}.
+Definition t_cfg : sc_config :=
+  {| sc_package := lit "p"; sc_module_name := []; sc_type_mappings := []; sc_no_version_header := true; sc_version := [] |}.
+Definition t_prog : parsed :=
+  {| p_structs := [{| sid := g_id "A"; sgenerics := []; sfields := [{| fid := g_id "x"; fty := RPrim PU8; fcomments := []; has_default := false; fdecs := [] |}];
+                      scomments := []; sdecs := []; sredacted := false |}];
+     p_enums := []; p_aliases := [{| aid := g_id "Al"; agenerics := []; atype := RVec (RPrim PU32); acomments := []; adecs := []; aredacted := false |}];
+     p_consts := []; p_type_names := []; p_errors := []; p_imports := [] |}.
+Definition d_prog : parsed :=
+  {| p_structs := [{| sid := g_id "A"; sgenerics := []; sfields := [{| fid := g_id "x"; fty := RPrim PString; fcomments := []; has_default := true; fdecs := [] |}];
+                      scomments := []; sdecs := []; sredacted := false |}];
+     p_enums := []; p_aliases := []; p_consts := []; p_type_names := []; p_errors := []; p_imports := [] |}.
+
+Lemma scala_keyword_name_refuted :
+  exists text, dom_C10 CSC k_prog = true /\ known_C10 CSC (sc_package g_cfg) k_prog = [] /\
+    known_C10_sc_grammar (sc_package g_cfg) k_prog = ["C10-scala-keyword-name"%string] /\
+    sc_generate uc_exec g_cfg k_prog = Ok text /\ contains_sub (lit "type: String,") text = true /\ contains_sub (lit "val: Int") text = true /\
+    good_C10_lex CSC text = true /\ c10_sc_recognise text = None.
+Proof. eexists. repeat split; vm_compute; reflexivity. Qed.
+
+Lemma scala_toplevel_alias_refuted :
+  exists text, Proofs.C10_SC.c10_sc_cfg_ok t_cfg = true /\ dom_C10 CSC t_prog = true /\ known_C10 CSC (sc_package t_cfg) t_prog = [] /\
+    known_C10_sc_grammar (sc_package t_cfg) t_prog = ["C10-scala-toplevel-alias"%string] /\
+    sc_generate uc_exec t_cfg t_prog = Ok text /\ starts_with (lit "type UByte = Byte") text = true /\ contains_sub (lit "type Al = Vector[UInt]") text = true /\
+    contains_sub (lit "package") text = false /\ good_C10_lex CSC text = true /\ c10_sc_recognise text = None.
+Proof. eexists. repeat split; vm_compute; reflexivity. Qed.
+
+(* the recorded class C10-scala-default is seen by the recogniser as well: `= _` is not an Expr *)
+Lemma scala_default_rejected :
+  exists text, dom_C10 CSC d_prog = true /\ known_C10 CSC (sc_package g_cfg) d_prog = ["C10-scala-default"%string] /\
+    known_C10_sc_grammar (sc_package g_cfg) d_prog = [] /\
+    sc_generate uc_exec g_cfg d_prog = Ok text /\ contains_sub (lit "x: String = _") text = true /\ c10_sc_recognise text = None.
+Proof. eexists. repeat split; vm_compute; reflexivity. Qed.
